@@ -112,6 +112,8 @@ FIXED += [
     ("C19", "efce5e7", "with `archives`, a named pipe called `p.zip` blocked the whole search for ever (open waits for a writer) although only `name` was selected; without `symlinks` the members of an archive behind a symbolic link were listed (second audit, agents C19 and C18; C19 enumerates things called *.zip that are no regular files and tells a blocked open from a slow run by /proc/<pid>/syscall; C18 has an archive-behind-link shape)", []),
     ("C18", "ca0c07e", "directories behind more than 40 symbolic links along one textual path (each relative target written behind the path so far) were silently skipped with status 0: `is_dir()` fails with ELOOP (second audit; C18 enumerates link chains of 12, 39, 45 and 60 levels)", []),
     ("C18", "24a825e", "with `symlinks`, a directory that has two real paths (a bind mount) and is reached through links was listed twice: visited directories were remembered by canonical path only (second audit; C18 builds such a tree in a private mount namespace)", []),
+    ("C17", "cb1b7ab", "`abspath` of a link whose target cannot be resolved (dangling, a loop, into a directory closed to the user) was empty - a name column lost because the target cannot be read (second audit; C17 has an enumerated unreadable-target case)", []),
+    ("C17", "ed3ca76", "`is_shebang` of an unreadable file and of a dangling link printed `false` where every other content-derived column is empty (the statement names is_shebang among them) (second audit; C17 had accepted `false` as an assumption - it now demands the empty cell)", []),
     ("C10", "2e125e2", "a flat chain of some 20 000 `or` / `and` conditions (one word per argument) or 17 000 arithmetic operators ended with a stack overflow (SIGSEGV / abort), and `not (a or a ...)` over 3000 conditions took 8 s to parse: the tree of a chain was as deep as the chain is long (second audit; C10 now enumerates flat chains up to the length a command line can have)", []),
     ("C10", "cbb17ce", "`where is_dir = ''`: the empty text literal was accepted as the boolean false (status 0, rows) while every other text that is no boolean is rejected (second audit; '' and ' ' are now among C10's bad booleans, and literals that are no number on numeric columns are a fourth ill-typed kind)", []),
     ("C10", "9b6a0a7", "day('2020-0\u0661-01'): the date pattern matched non-ASCII digits and the integer parse of the capture was unwrapped (found by the eval_total fuzz target after 2e7 executions)", ["date-non-ascii-digit"]),
